@@ -1,171 +1,400 @@
 # Registry: property id -> programs per tier, bounds, assumptions.
 # A program = (repo-relative package dir, harness function, params).
+# Every program is a gosym run: bounded symbolic execution of the real SSA code
+# reachable from the harness, all paths, assertions decided by z3.
+
 
 def P(pkg, harness, must_reach=("end",), **params):
-    d = {"pkg": pkg, "harness": harness, "params": params, "must_reach": list(must_reach)}
-    return d
+    return {"pkg": pkg, "harness": harness, "params": params, "must_reach": list(must_reach)}
+
+
+LEVEL_TEXT = ("bounded symbolic model checking of the real code: every feasible path of the harness through the current /repo SSA "
+              "is explored (complete case split on every symbolic branch), every assertion on every path is discharged by z3 "
+              "(unsat of path-condition AND NOT assertion) for all values of the symbolic inputs within the stated bounds; "
+              "counterexamples are replayed against the natively compiled code before being reported")
+LEVEL_NOTE = ("trusted: go/packages+go/ssa front end, gosym's SSA semantics (validated per run by native replay of sample witnesses and of every "
+              "counterexample; term simplifier validated by a randomized soundness self-test at setup), z3 4.8.12, the harness-side models "
+              "(model LinkSystem with collision-free model hash; symbolic name-hash standing in for murmur3 where stated; model filesystem; "
+              "reference models refBalanced/refHAMT validated natively against boxo in /verif/validate). Nothing is claimed outside the bounds.")
 
 PROPS = {}
 
-PROPS["C02"] = {
-    "programs": {
-        "quick": [P("hamt", "VerifHashBitsNext", must_reach=("end", "too-deep")),
-                  P("hamt", "VerifHashBitsStep", must_reach=("end", "too-deep")),
-                  P("data/builder", "VerifBuilderSlice", must_reach=("end", "too-deep")),
-                  P("data/builder", "VerifLogTwo", must_reach=("end", "rejected")),
-                  P("hamt", "VerifCheckLogTwo"), P("hamt", "VerifMkmask"),
-                  P("hamt", "VerifBitfieldLaws", nb=1), P("hamt", "VerifBitfieldLaws", nb=2),
-                  P("hamt", "VerifBitfieldSetBit", nb=2),
-                  P("test", "VerifShardedDir", lg=3, entries=2, maxdepth=2),
-                  ],
-    },
-    "bounds": {"quick": "K1: all 2^64 hashes x log2(fanout) 3..10 x depth 0..21"},
-    "assumptions": [],
-    "outside": "",
-}
-
+# ---------------------------------------------------------------- C01
 PROPS["C01"] = {
     "programs": {
-        "quick": [P("test", "VerifFileRoundTrip", w=2, k=1, maxn=5)],
+        "quick": [
+            P("test", "VerifFileRoundTrip", must_reach=("end", "largebytes", "pb-root", "plain-bytes-node"), w=2, k=1, maxn=6),
+            P("test", "VerifFileRoundTrip", w=3, k=2, maxn=4, minlen=1),
+            P("test", "VerifFileRoundTrip", w=2, k=1, maxn=3, distinct=0),
+            P("test", "VerifReaderMenu", must_reach=("end", "cidv0", "pb-leaf", "no-filesize", "no-blocksizes", "trickle")),
+        ],
+        "thorough": [
+            P("test", "VerifFileRoundTrip", must_reach=("end", "largebytes", "pb-root", "plain-bytes-node"), w=2, k=1, maxn=17, maxbuf=5),
+            P("test", "VerifFileRoundTrip", w=3, k=1, maxn=28, minlen=9, maxbuf=2),
+            P("test", "VerifFileRoundTrip", w=4, k=1, maxn=17, minlen=5, maxbuf=2),
+            P("test", "VerifFileRoundTrip", w=2, k=3, maxn=5, maxbuf=5),
+            P("test", "VerifFileRoundTrip", w=2, k=1, maxn=5, distinct=0),
+            P("test", "VerifReaderMenu", must_reach=("end", "cidv0", "pb-leaf", "no-filesize", "no-blocksizes", "trickle"), deep=1),
+        ],
     },
-    "bounds": {"quick": "w=2, size-1 chunker, 0..5 chunks"},
-    "assumptions": [],
-    "outside": "",
+    "bounds": {
+        "quick": "builder->reader: all contents of 0..6 size-1 chunks at width 2 (3 interior levels reached at 5), 1..8 bytes in size-2 chunks at width 3, buffers 1..3, direct/lazy/preload; free chunk aliasing for <=3 chunks; reader over hand-assembled DAG menu (raw/dag-pb leaves, inline data, FileSize/BlockSizes present or absent, CIDv0/v1, trickle-like mixed depth) with <=2 children per node, depth <=2",
+        "thorough": "width 2: 0..17 chunks (5 levels); width 3: 9..28; width 4: 5..17; size-3 chunks; buffers 1..5; free aliasing <=5 chunks; reader menu depth 3",
+    },
+    "assumptions": ["size-K chunker only (real boxo SizeSplitter is executed); content-defined chunkers (rabin, buzhash) are outside the claim",
+                    "model LinkSystem: real codecs and Store/Load paths, collision-free model hash instead of SHA-256"],
+    "outside": "rabin/buzhash/default-chunker boundaries, width 174 itself (code is width-generic), files longer than the bound, reference-importer DAGs beyond the menu grammar",
 }
 
-PROPS["C07"] = {
+# ---------------------------------------------------------------- C02
+PROPS["C02"] = {
     "programs": {
-        "quick": [P("test", "VerifFileStructure", w=2, k=1, maxn=9), P("test", "VerifFileStructure", w=3, k=1, maxn=13)],
+        "quick": [
+            P("hamt", "VerifHashBitsNext", must_reach=("end", "too-deep")),
+            P("data/builder", "VerifBuilderSlice", must_reach=("end", "too-deep")),
+            P("data/builder", "VerifLogTwo", must_reach=("end", "rejected")),
+            P("hamt", "VerifCheckLogTwo"), P("hamt", "VerifMkmask"),
+            P("hamt", "VerifBitfieldLaws", nb=1), P("hamt", "VerifBitfieldLaws", nb=2),
+            P("hamt", "VerifBitfieldSetBit", nb=2),
+            P("hamt", "VerifMatchKey"), P("hamt", "VerifIsValueLink"), P("hamt", "VerifTransformName"),
+            P("data/builder", "VerifFormatLinkName"),
+            P("data/builder", "VerifEstimateDirSize"),
+            P("data/builder", "VerifAutoShardThreshold", must_reach=("end", "plain", "sharded")),
+            P("test", "VerifShardedDir", lg=3, entries=2, maxdepth=2),
+            P("test", "VerifPlainDirMap", entries=3),
+            P("test", "VerifHamtReaderWellFormed", must_reach=("end", "member", "non-member", "iterate")),
+        ],
+        "thorough": [
+            P("hamt", "VerifHashBitsNext", must_reach=("end", "too-deep")),
+            P("hamt", "VerifHashBitsStep", must_reach=("end", "too-deep"), allwidths=1),
+            P("data/builder", "VerifBuilderSlice", must_reach=("end", "too-deep")),
+            P("hamt", "VerifBitfieldLaws", nb=4), P("hamt", "VerifBitfieldLaws", nb=8),
+            P("hamt", "VerifBitfieldSetBit", nb=16),
+            P("hamt", "VerifMatchKey"), P("hamt", "VerifIsValueLink"), P("hamt", "VerifTransformName"),
+            P("data/builder", "VerifFormatLinkName"), P("data/builder", "VerifEstimateDirSize"),
+            P("data/builder", "VerifAutoShardThreshold", must_reach=("end", "plain", "sharded")),
+            P("test", "VerifShardedDir", lg=3, entries=3, maxdepth=2),
+            P("test", "VerifShardedDir", lg=4, entries=2, maxdepth=2),
+            P("test", "VerifShardedDir", lg=3, entries=2, maxdepth=3),
+            P("test", "VerifShardedDir", lg=3, entries=2, maxdepth=2, small=0),
+            P("test", "VerifDeepChain", must_reach=("end", "too-deep", "deep-ok")),
+            P("test", "VerifPlainDirMap", entries=4),
+            P("test", "VerifHamtReaderWellFormed", must_reach=("end", "member", "non-member", "iterate")),
+        ],
     },
-    "bounds": {"quick": "w=2 n<=9, w=3 n<=13, size-1 chunker"},
-    "assumptions": [],
-    "outside": "",
+    "bounds": {
+        "quick": "kernels over ALL values: 64-bit hashes x fanout 8..1024 x depth 0..21 (reader Next and builder Slice against one bit-slice spec), bitfields of 1-2 bytes x every index, link-name prefix laws for pad 1..3 and names/keys of 0..3 arbitrary bytes, estimateDirSize over link-kind mixes, auto-shard threshold at estimate threshold-1/0/+1; pipeline: 2 entries + 1 probe (unrelated / suffix / extension of an entry name), fanout 8, depth<=2, symbolic 64-bit name hashes with buckets {0,1,7}, symbolic sizes < 128; plain directory 0..3 entries; hand-built non-canonical HAMTs (4 shapes, 3 levels)",
+        "thorough": "all widths 1..63 x all offsets in the inductive hashBits step; bitfields 4, 8, 16 bytes; pipeline with 3 entries, fanout 16, depth 3, unrestricted buckets; two names colliding for every number of levels up to the 64-bit limit incl. the too-deep error",
+    },
+    "assumptions": ["symbolic name hash: murmur3.New64 is replaced on builder and reader side by one table name->8 symbolic bytes (any function from names to 64 bits); native replays search real names whose murmur3 hash matches the witness prefix",
+                    "the induction over shard depth joining the kernels and the bounded pipeline is stated, not mechanised"],
+    "outside": "thousands of entries; fanouts > 16 in the end-to-end pipeline (covered through the all-value kernels only)",
 }
 
+# ---------------------------------------------------------------- C03
+PROPS["C03"] = {
+    "programs": {
+        "quick": [P(".", "VerifPathSelectorShape", must_reach=("end", "empty-path"), len=3),
+                  P("test", "VerifPathTraversal", must_reach=("end", "present", "absent"))],
+        "thorough": [P(".", "VerifPathSelectorShape", must_reach=("end", "empty-path"), len=5),
+                     P("test", "VerifPathTraversal", must_reach=("end", "present", "absent"))],
+    },
+    "bounds": {"quick": "S1: every ASCII path string of 3 bytes x 4 target selectors x matchPath on/off: selector == reference tree, compiles; S3: the real go-ipld-prime traversal (interpreted) over one tree (plain dirs, HAMT dir, 3-block file) x 8 paths (present, absent, redundant slashes, '..') x 3 target selectors x matchPath, symbolic file contents: matches, order, bytes, blocks requested",
+               "thorough": "S1 with every ASCII path of 5 bytes"},
+    "assumptions": ["non-ASCII path bytes are outside S1 (ParsePath splits on '/' only; segments are opaque)"],
+    "outside": "trees other than the one in S3; explore-all target in S3",
+}
+
+# ---------------------------------------------------------------- C04
 PROPS["C04"] = {
     "programs": {
-        "quick": [P("test", "VerifReadSeekHistory", must_reach=("end", "seek-negative", "read-at-or-past-end"), w=2, k=2, maxlen=5, steps=2)],
+        "quick": [P("test", "VerifReadSeekHistory", must_reach=("end", "seek-negative", "read-at-or-past-end"), w=2, k=2, maxlen=5, steps=2),
+                  P("test", "VerifReadSeekHistory", must_reach=("end", "read-at-or-past-end"), w=2, k=2, maxlen=5, steps=3, readers=2, maxbuf=2, readonly=1)],
+        "thorough": [P("test", "VerifReadSeekHistory", must_reach=("end", "seek-negative", "read-at-or-past-end"), w=2, k=2, maxlen=6, steps=3),
+                     P("test", "VerifReadSeekHistory", must_reach=("end", "seek-negative", "read-at-or-past-end"), w=2, k=2, maxlen=5, steps=3, readers=2, maxbuf=2),
+                     P("test", "VerifReadSeekHistory", must_reach=("end", "seek-negative", "read-at-or-past-end"), w=2, k=1, maxlen=5, steps=2, maxbuf=4)],
     },
-    "bounds": {"quick": "files of 0..5 bytes at w=2,size-2 (raw single block, root+2, root+3->2-level), histories of 2 ops, offsets |off|<=2^40, buffers 1..3"},
-    "assumptions": [],
-    "outside": "",
+    "bounds": {"quick": "files of 0..5 bytes at width 2 / size-2 (single raw block, root+2, root+3 -> 2 interior levels); histories of 2 operations with symbolic int64 offsets |off|<=2^40, all three whence values, buffers 1..3; plus two readers of one node interleaved in every order over 3 reads",
+               "thorough": "histories of 3 operations; two readers with seeks; 3 interior levels"},
+    "assumptions": ["offsets beyond +-2^40 (int64 wrap-around) are outside the claim"],
+    "outside": "histories longer than the bound; more than two readers",
 }
 
+# ---------------------------------------------------------------- C05
+PROPS["C05"] = {
+    "programs": {
+        "quick": [P("test", "VerifFileRangeLoads", must_reach=("end", "single-block"), w=2, k=2, maxlen=6),
+                  P("test", "VerifHamtReaderWellFormed", must_reach=("end", "member", "non-member", "iterate")),
+                  P("test", "VerifPathTraversal", must_reach=("end", "present", "absent"))],
+        "thorough": [P("test", "VerifFileRangeLoads", must_reach=("end", "single-block"), w=2, k=2, maxlen=10),
+                     P("test", "VerifFileRangeLoads", must_reach=("end",), w=3, k=1, maxlen=10),
+                     P("test", "VerifHamtReaderWellFormed", must_reach=("end", "member", "non-member", "iterate")),
+                     P("test", "VerifPathTraversal", must_reach=("end", "present", "absent"))],
+    },
+    "bounds": {"quick": "files 1..6 bytes (width 2, size-2): every range [a,b), loaded set == blocks meeting the range + ancestors; HAMT lookups (member, and non-member with an arbitrary 64-bit hash) load exactly the shards on the hash path, in order; path traversal loads only path + entity blocks",
+               "thorough": "files up to 10 bytes / 10 chunks at widths 2 and 3"},
+    "assumptions": ["interior file nodes carry BlockSizes (true for every DAG this builder or the reference writes)"],
+    "outside": "subset-matcher traversals (only Seek+ReadFull ranges are explored)",
+}
+
+# ---------------------------------------------------------------- C06
+PROPS["C06"] = {
+    "programs": {
+        "quick": [P("test", "VerifFileFullReadOrder", must_reach=("end", "preload"), w=2, k=1, maxlen=6),
+                  P("test", "VerifFileMissingBlock", w=2, k=1, maxlen=5),
+                  P("test", "VerifHamtPreload", must_reach=("end", "missing")),
+                  P("test", "VerifPathTraversal", must_reach=("end", "present", "absent"))],
+        "thorough": [P("test", "VerifFileFullReadOrder", must_reach=("end", "preload"), w=2, k=1, maxlen=12),
+                     P("test", "VerifFileMissingBlock", w=2, k=1, maxlen=9),
+                     P("test", "VerifFileMissingBlock", w=3, k=1, maxlen=10),
+                     P("test", "VerifHamtPreload", must_reach=("end", "missing")),
+                     P("test", "VerifPathTraversal", must_reach=("end", "present", "absent"))],
+    },
+    "bounds": {"quick": "files 0..6 chunks (width 2): preload fetches every block once, in order, nothing else; every single missing block makes preload fail without a node; hand-built HAMTs: preload fetches every shard and no entry target, every single missing shard makes it fail; entity/preload selectors through the real traversal on one tree",
+               "thorough": "files up to 12 chunks, widths 2 and 3"},
+    "assumptions": [], "outside": "",
+}
+
+# ---------------------------------------------------------------- C07
+PROPS["C07"] = {
+    "programs": {
+        "quick": [P("test", "VerifFileStructure", must_reach=("end", "empty"), w=2, k=1, maxn=9),
+                  P("test", "VerifFileStructure", w=3, k=1, maxn=13, minn=1)],
+        "thorough": [P("test", "VerifFileStructure", must_reach=("end", "empty"), w=2, k=1, maxn=33),
+                     P("test", "VerifFileStructure", w=3, k=1, maxn=40, minn=1),
+                     P("test", "VerifFileStructure", w=4, k=1, maxn=40, minn=1),
+                     P("test", "VerifFileStructure", w=2, k=3, maxn=6, minn=1)],
+    },
+    "bounds": {"quick": "every chunk count 0..9 at width 2 and 1..13 at width 3 (size-1 chunks, arbitrary distinct contents): stored DAG == refBalanced (kinds, child lists, order, FileSize, BlockSizes, Tsize), returned size == cumulative",
+               "thorough": "n <= 33 (width 2), <= 40 (widths 3, 4); short last chunk"},
+    "assumptions": ["same structure and field values => same bytes => same CID rests on the determinism of the dag-pb codec and SHA-256 (dependencies); refBalanced is validated natively against boxo balanced.Layout for n<=40, w=2,3,4 (/verif/validate)"],
+    "outside": "chunk counts above the bound; content-defined chunkers",
+}
+
+# ---------------------------------------------------------------- C08
+PROPS["C08"] = {
+    "programs": {
+        "quick": [P("test", "VerifShardedDir", lg=3, entries=2, maxdepth=2),
+                  P("data/builder", "VerifBuilderSlice", must_reach=("end", "too-deep")),
+                  P("hamt", "VerifHashBitsNext", must_reach=("end", "too-deep")),
+                  P("data/builder", "VerifFormatLinkName"),
+                  P("test", "VerifHamtReaderWellFormed", must_reach=("end", "member", "non-member", "iterate"))],
+        "thorough": [P("test", "VerifShardedDir", lg=3, entries=3, maxdepth=2),
+                     P("test", "VerifShardedDir", lg=4, entries=2, maxdepth=2),
+                     P("test", "VerifShardedDir", lg=3, entries=2, maxdepth=2, small=0),
+                     P("test", "VerifShardedDir", lg=3, entries=2, maxdepth=2, sizebits=40, small=1, fixedbuckets=1),
+                     P("data/builder", "VerifBuilderSlice", must_reach=("end", "too-deep")),
+                     P("hamt", "VerifHashBitsNext", must_reach=("end", "too-deep")),
+                     P("data/builder", "VerifFormatLinkName"),
+                     P("test", "VerifDeepChain", must_reach=("end", "too-deep", "deep-ok")),
+                     P("test", "VerifHamtReaderWellFormed", must_reach=("end", "member", "non-member", "iterate"))],
+    },
+    "bounds": {"quick": "builder output == refHAMT (structure, link names, bitfield without leading zero bytes, Tsizes, returned size) for 2 entries, fanout 8, depth<=2; bit-slice and link-name kernels over all values; reader on hand-built locally well-formed, non-canonical shard trees (what insert/remove histories leave behind)",
+               "thorough": "3 entries; fanout 16; unrestricted buckets; sizes up to 2^40; collision chains to the 64-bit limit"},
+    "assumptions": ["refHAMT is validated natively against boxo unixfs/hamt at all 8 fanouts (/verif/validate); 'boxo leaves locally well-formed shards after any insert/remove history' is validated natively on seeded histories there, not explored symbolically (boxo's HAMT is not interpreted)"],
+    "outside": "histories themselves; byte identity rests on dag-pb/SHA-256 determinism",
+}
+
+# ---------------------------------------------------------------- C09
+PROPS["C09"] = {
+    "programs": {
+        "quick": [P("data", "VerifDecodeFieldOrder", nopt=1, unk=0),
+                  P("data", "VerifDecodeBlockSizes", must_reach=("end", "packed", "unpacked", "interleaved"), maxbs=2, lens=2, unkkinds=0),
+                  P("data", "VerifDecodeRequired"),
+                  P("data", "VerifDecodeTime", lens=2), P("data", "VerifDecodeMetadata", lens=2),
+                  P("data", "VerifEncodeReference", nopt=1, maxbs=1),
+                  P("test", "VerifBuilderPermissions")],
+        "thorough": [P("data", "VerifDecodeFieldOrder", nopt=2, unk=0, lens=2),
+                     P("data", "VerifDecodeFieldOrder", nopt=1, unk=1),
+                     P("data", "VerifDecodeBlockSizes", must_reach=("end", "packed", "unpacked", "interleaved"), maxbs=3, lens=2, unkkinds=0),
+                     P("data", "VerifDecodeBlockSizes", must_reach=("end", "packed", "unpacked", "interleaved"), maxbs=1, lens=10, unkkinds=1),
+                     P("data", "VerifDecodeRequired"),
+                     P("data", "VerifDecodeTime", lens=10), P("data", "VerifDecodeMetadata", lens=3),
+                     P("data", "VerifEncodeReference", nopt=2, maxbs=2),
+                     P("test", "VerifBuilderPermissions")],
+    },
+    "bounds": {"quick": "decode: type + 1 optional field (each of the 6) in both orders with varint lengths {1,2,10} (all values incl. 2^31, 2^32-1, 2^63, 2^64-1, negative seconds as members of the symbolic range); blocksizes 0..2 unpacked / one packed run / interleaved with other fields and an unknown field; missing required fields rejected; timestamp and metadata decoders with an unknown field of every wire type; encode -> independent reference decoder with 1 optional field and 0..1 blocksizes over value magnitude classes {1,2,5,10} varint bytes, default-mode elision, permissions, decode+re-encode reproduces bytes; builder masks permissions to 12 bits (all 2^32 modes)",
+               "thorough": "2 optional fields in every order; unknown fields of every wire type interleaved; 3 blocksizes; all 10 varint lengths"},
+    "assumptions": ["the reference decoder is a 100-line proto2 reader written for the check (gogo-protobuf's generated code is reflection/unsafe-based and not interpretable); every counterexample is replayed natively"],
+    "outside": "duplicated singular fields, mixed packed+unpacked, mode >= 2^32, truncated input (not emitted by a conformant encoder; covered as 'no panic' under C13)",
+}
+
+# ---------------------------------------------------------------- C10
+PROPS["C10"] = {
+    "programs": {
+        "quick": [P("test", "VerifShardedDirDeterminism", lg=3, entries=2, maxdepth=2),
+                  P("test", "VerifPlainDirDeterminism", entries=3),
+                  P("test", "VerifFileFragmentation", w=2, k=2, maxlen=5),
+                  P("data/builder", "VerifEstimateDirSize"),
+                  P("data/builder", "VerifAutoShardThreshold", must_reach=("end", "plain", "sharded")),
+                  P("test", "VerifQuickBuilder", must_reach=("end",))],
+        "thorough": [P("test", "VerifShardedDirDeterminism", lg=3, entries=3, maxdepth=2),
+                     P("test", "VerifPlainDirDeterminism", entries=4),
+                     P("test", "VerifFileFragmentation", w=2, k=3, maxlen=7),
+                     P("data/builder", "VerifEstimateDirSize"),
+                     P("data/builder", "VerifAutoShardThreshold", must_reach=("end", "plain", "sharded")),
+                     P("test", "VerifQuickBuilder", must_reach=("end",))],
+    },
+    "bounds": {"quick": "sharded dir: 2 entries, fanout 8, depth<=2, built twice: every Go-map iteration order inside the shard builder x both entry orders (2-safety in one path); plain dir: 3 entries, all 6 orders; auto-shard decision at threshold-1/0/+1 with mixed link lengths in both orders; file: 0..5 bytes size-2, every fragmentation with fragments 1..3; quick builder map directory under every map order",
+               "thorough": "3 entries sharded (all 6 orders x map orders), 4 entries plain, files to 7 bytes size-3"},
+    "assumptions": ["the Go runtime's randomised map order is over-approximated by 'any permutation' (explorer-chosen)"],
+    "outside": "rabin/buzhash under fragmentation",
+}
+
+# ---------------------------------------------------------------- C11
 PROPS["C11"] = {
     "programs": {
-        "quick": [P("test", "VerifFileStructure", w=2, k=2, maxn=5), P("test", "VerifFileStructure", w=3, k=1, maxn=10)],
+        "quick": [P("test", "VerifFileStructure", w=2, k=2, maxn=5), P("test", "VerifFileStructure", w=3, k=1, maxn=10),
+                  P("test", "VerifFileStructure", w=2, k=1, maxn=4, distinct=0),
+                  P("test", "VerifShardedDir", lg=3, entries=2, maxdepth=2),
+                  P("test", "VerifDirSizes", must_reach=("end", "symlink", "plain"))],
+        "thorough": [P("test", "VerifFileStructure", w=2, k=2, maxn=17), P("test", "VerifFileStructure", w=3, k=1, maxn=28),
+                     P("test", "VerifFileStructure", w=2, k=1, maxn=5, distinct=0),
+                     P("test", "VerifShardedDir", lg=3, entries=3, maxdepth=2),
+                     P("test", "VerifShardedDir", lg=3, entries=2, maxdepth=2, sizebits=40, small=1, fixedbuckets=1),
+                     P("test", "VerifDirSizes", must_reach=("end", "symlink", "plain"))],
     },
-    "bounds": {"quick": "files: w=2 size-2 n<=5 (short last chunk), w=3 n<=10"},
-    "assumptions": [],
-    "outside": "",
+    "bounds": {"quick": "files: width 2 size-2 <=5 chunks (short last chunk), width 3 <=10 chunks, free chunk aliasing <=4 chunks (tree sum vs de-duplicated store): returned size, every Tsize, FileSize, BlockSizes recomputed from the stored blocks; sharded directories (2 entries, nested sub-shard) with symbolic entry sizes; plain directory and symlink sizes",
+               "thorough": "files to 17 / 28 chunks; sizes up to 2^40"},
+    "assumptions": [], "outside": "recursive imports beyond one level (size composition is the per-builder law checked here)",
 }
 
-PROPS["C05"] = {
-    "programs": {"quick": [P("test", "VerifFileRangeLoads", must_reach=("end","single-block"), w=2, k=2, maxlen=6)]},
-    "bounds": {"quick": "files 1..6 bytes, w=2 size-2, every range [a,b)"},
-    "assumptions": [], "outside": "",
-}
-PROPS["C20"] = {
-    "programs": {"quick": [P("test", "VerifFileFullReadOrder", must_reach=("end","preload"), w=2, k=1, maxlen=6)]},
-    "bounds": {"quick": "files 0..6 chunks, w=2"},
-    "assumptions": [], "outside": "",
-}
+# ---------------------------------------------------------------- C12
 PROPS["C12"] = {
-    "programs": {"quick": [P("test", "VerifFileMissingBlock", w=2, k=1, maxlen=5)]},
-    "bounds": {"quick": "files 2..5 chunks, w=2; every single block missing"},
+    "programs": {
+        "quick": [P("test", "VerifFileMissingBlock", w=2, k=1, maxlen=5),
+                  P("test", "VerifFileKthLoadFails", w=2, k=1, maxlen=5),
+                  P("test", "VerifHamtMissingShards", must_reach=("end", "lookup-blocked", "iterate"))],
+        "thorough": [P("test", "VerifFileMissingBlock", w=2, k=1, maxlen=9), P("test", "VerifFileMissingBlock", w=3, k=2, maxlen=12),
+                     P("test", "VerifFileKthLoadFails", w=2, k=1, maxlen=9),
+                     P("test", "VerifHamtMissingShards", must_reach=("end", "lookup-blocked", "iterate"))],
+    },
+    "bounds": {"quick": "files 2..5 chunks (width 2): every single block missing (not-found or arbitrary I/O error) x buffers 1..2: exact prefix then non-EOF load error; the k-th load failing for symbolic k; hand-built HAMTs (3 shapes, up to 3 sub-shards over 3 levels): every subset of missing shards: lookups crossing one report the load error, iteration terminates, yields exactly the reachable entries once, one error per missing shard met",
+               "thorough": "files to 9 / 12 chunks"},
     "assumptions": [], "outside": "",
 }
 
-PROPS["C16"] = {
-    "programs": {"quick": [P("test", "VerifFileWriteFaults", must_reach=("end","fault-delivered"), w=2, k=1, maxlen=5),
-                           P("test", "VerifDirWriteFaults", must_reach=("end","fault-delivered","sharded"), entries=2)]},
-    "bounds": {"quick": "files 0..5 chunks w=2; dirs 2 entries fanout 8 depth<=2; symlink; every k-th open/commit failing"},
-    "assumptions": [], "outside": "",
-}
-
-PROPS["C09"] = {
-    "programs": {"quick": [P("data", "VerifDecodeFieldOrder", nopt=1, unk=0),
-                           P("data", "VerifDecodeBlockSizes", must_reach=("end","packed","unpacked","interleaved"), maxbs=2, lens=2, unkkinds=0),
-                           P("data", "VerifDecodeRequired"),
-                           P("data", "VerifDecodeTime", lens=2), P("data", "VerifDecodeMetadata", lens=2),
-                           P("data", "VerifEncodeReference", nopt=1, maxbs=1)]},
-    "bounds": {"quick": "type + 1 optional field (each of the 6) in both orders, varint lengths {1,2,10}; blocksizes 0..2 unpacked/packed/interleaved; timestamp/metadata decoders with one unknown field; encode->reference decode with 1 optional field, 0..1 blocksizes, value magnitude classes {1,2,5,10} bytes"},
-    "assumptions": [], "outside": "",
-}
-
-PROPS["C14"] = {
-    "programs": {"quick": [P("test", "VerifReifyTotal", must_reach=("end","non-dagpb","link-map","file","directory","symlink-metadata","shard-valid","shard-invalid","unknown-type"))]},
-    "bounds": {"quick": "node classes: 4 non-dag-pb kinds; dag-pb without Data / 3 undecodable payload shapes, 0..1 links; decodable Data with type = any int64, inline Data 0..2 bytes, hashType/fanout present or not with any uint64 value, 0..1 links; lazy and preload reifiers"},
-    "assumptions": [], "outside": "",
-}
-
-PROPS["C10"] = {
-    "programs": {"quick": [P("test", "VerifShardedDirDeterminism", lg=3, entries=2, maxdepth=2),
-                           P("test", "VerifPlainDirDeterminism", entries=3),
-                           P("test", "VerifFileFragmentation", w=2, k=2, maxlen=5)]},
-    "bounds": {"quick": "sharded dir: 2 entries, fanout 8, depth<=2, all map-iteration orders x both entry orders; plain dir: 3 entries, all 6 orders; file: 0..5 bytes size-2, every fragmentation with fragments 1..3"},
-    "assumptions": [], "outside": "",
-}
-PROPS["C06"] = {
-    "programs": {"quick": [P("test", "VerifFileFullReadOrder", must_reach=("end","preload"), w=2, k=1, maxlen=6),
-                           P("test", "VerifFileMissingBlock", w=2, k=1, maxlen=5)]},
-    "bounds": {"quick": "files 0..6 chunks w=2: preload fetches all blocks once, in order, nothing else; every single missing block makes preload fail"},
-    "assumptions": [], "outside": "",
-}
-PROPS["C08"] = {
-    "programs": {"quick": [P("test", "VerifShardedDir", lg=3, entries=2, maxdepth=2),
-                           P("data/builder", "VerifBuilderSlice", must_reach=("end", "too-deep")),
-                           P("hamt", "VerifHashBitsNext", must_reach=("end", "too-deep"))]},
-    "bounds": {"quick": "builder output == refHAMT (structure, names, bitfield, Tsizes, size) for 2 entries, fanout 8, depth<=2, buckets {0,1,7}; bit-slice agreement for all hashes/fanouts/depths"},
-    "assumptions": [], "outside": "",
-}
-
+# ---------------------------------------------------------------- C13
 PROPS["C13"] = {
-    "programs": {"quick": [P("data", "VerifDecodersArbitraryBytes", len=3),
-                           P("hamt", "VerifHashBitsStep", must_reach=("end", "too-deep")),
-                           P("test", "VerifHostileShard", must_reach=("end","rejected","iterated"), depth=1, links=1),
-                           ]},
-    "bounds": {"quick": "decoders: all byte strings of length 3; hashBits.Next from any state/width; hostile shard DAGs: root + 0..1 links, child shard with 0..1 links, fanouts {8,1024} chosen independently, bitfields 1..2 arbitrary bytes, names absent or 1..4 arbitrary bytes, children raw/shard/missing/non-UnixFS; lazy and preload; Length, 4 lookups, full iteration"},
-    "assumptions": [], "outside": "",
+    "programs": {
+        "quick": [P("data", "VerifDecodersArbitraryBytes", len=3),
+                  P("hamt", "VerifHashBitsStep", must_reach=("end", "too-deep")),
+                  P("hamt", "VerifIsValueLink"),
+                  P("test", "VerifHostileShard", must_reach=("end", "rejected", "iterated"), depth=1, links=1),
+                  P("test", "VerifReadSeekHistory", must_reach=("end", "seek-negative"), w=2, k=2, maxlen=3, steps=2),
+                  P("test", "VerifReifyTotal", must_reach=("end", "shard-invalid", "unknown-type"))],
+        "thorough": [P("data", "VerifDecodersArbitraryBytes", len=4),
+                     P("hamt", "VerifHashBitsStep", must_reach=("end", "too-deep"), allwidths=1),
+                     P("hamt", "VerifIsValueLink"),
+                     P("test", "VerifHostileShard", must_reach=("end", "rejected", "iterated"), depth=1, links=2),
+                     P("test", "VerifHostileShard", must_reach=("end", "rejected", "iterated"), depth=1, links=1, small=0),
+                     P("test", "VerifHostileFile", must_reach=("end", "sought"), depth=1),
+                     P("test", "VerifReifyTotal", must_reach=("end", "shard-invalid", "unknown-type"))],
+    },
+    "bounds": {"quick": "decoders: ALL byte strings of length 3 (value xor error, no panic, step budget); hashBits.Next from any state with any width; hostile shard DAGs: root + 0..1 links, child shard with 0..1 links, fanouts {8,1024} chosen independently per shard, bitfields of 1..2 arbitrary bytes, names absent or 1..4 arbitrary bytes, children raw/shard/missing/non-UnixFS, lazy and preload, Length / 4 lookups / full iteration; negative and overflowing seeks; reification of arbitrary type / shard parameters",
+               "thorough": "byte strings of length 4; 2 links per shard; fanouts {8,16,256,1024}; hostile file DAGs (arbitrary FileSize / BlockSizes / Tsize, inconsistent counts, missing children) read and sought"},
+    "assumptions": ["panics inside dependency decoders on bytes the harness never generates (dag-pb decode of arbitrary bytes) are not this library's code"],
+    "outside": "blocks larger than the bound",
 }
 
-PROPS["C18"] = {
-    "programs": {"quick": [P("test", "VerifRecursiveImport", must_reach=("end","other-kind"), depth=1, entries=2)]},
-    "bounds": {"quick": "trees of depth<=1 (root + up to 2 entries), each node's kind from an arbitrary 32-bit mode word, names 1 byte a..z, file contents / link targets 0..2 arbitrary bytes"},
-    "assumptions": [], "outside": "",
+# ---------------------------------------------------------------- C14
+PROPS["C14"] = {
+    "programs": {"quick": [P("test", "VerifReifyTotal", must_reach=("end", "non-dagpb", "link-map", "file", "directory", "symlink-metadata", "shard-valid", "shard-invalid", "unknown-type"))]},
+    "bounds": {"quick": "node classes: 4 non-dag-pb kinds; dag-pb without Data / 3 undecodable payload shapes, 0..1 links; decodable Data with type = ANY int64, inline Data 0..2 bytes, hashType / fanout present or not with ANY uint64 value, 0..1 links; lazy and preload reifiers; Substrate() identity"},
+    "assumptions": ["Substrate identity (same node object) implies byte-identical re-encoding given a deterministic codec"], "outside": "",
 }
+
+# ---------------------------------------------------------------- C15
 PROPS["C15"] = {
-    "programs": {"quick": [P("test", "VerifLinkMapContract", must_reach=("end","absent-key","present-key"), links=2),
-                           P("test", "VerifHamtReaderWellFormed", must_reach=("end","member","non-member","iterate"))]},
-    "bounds": {"quick": "link lists of 0..2 links (names absent or 0..2 arbitrary bytes, so empty/duplicate names arise), plain directory and generic link map; 4 hand-built well-formed HAMT shapes (3 levels, several sub-shards per shard)"},
+    "programs": {
+        "quick": [P("test", "VerifLinkMapContract", must_reach=("end", "absent-key", "present-key"), links=2),
+                  P("test", "VerifHamtReaderWellFormed", must_reach=("end", "member", "non-member", "iterate"))],
+        "thorough": [P("test", "VerifLinkMapContract", must_reach=("end", "absent-key", "present-key"), links=3),
+                     P("test", "VerifHamtReaderWellFormed", must_reach=("end", "member", "non-member", "iterate")),
+                     P("test", "VerifShardedDir", lg=3, entries=3, maxdepth=2)],
+    },
+    "bounds": {"quick": "link lists of 0..2 links (names absent or 0..2 arbitrary bytes, so empty and duplicate names arise as solver cases; sizes present or not), plain directory and generic link map, probe key of 0..2 arbitrary bytes; 4 hand-built well-formed HAMT shapes",
+               "thorough": "3 links; builder-written HAMTs with 3 entries"},
     "assumptions": [], "outside": "",
 }
 
-PROPS["C19"] = {
-    "programs": {"quick": [P("testutil", "VerifFixtureGenerators", must_reach=("end","unixfs-directory","custom-generator"), target=2048, freecoins=5, freenames=1),
-                           P("testutil", "VerifFixtureFile")]},
-    "bounds": {"quick": "UnixFSDirectory (default, sharded bit-width 3, custom child generator), GenerateDirectory (plain/sharded), UnixFSFile sizes 0..3, BuildDirectory; target size 2048; the first 5 dice and the first generated name are explorer-chosen (every value), later draws are scripted (file, largest size, fresh name)"},
-    "native_any_label": True,
-    "assumptions": ["crypto/rand.Int and namegen are replaced by a scripted source (their draws are the symbolic inputs); native replay runs the real generators with a math/rand stream seeded from the witness"],
-    "outside": "",
-}
-
-PROPS["C03"] = {
-    "programs": {"quick": [P(".", "VerifPathSelectorShape", must_reach=("end","empty-path"), len=3),
-                           P("test", "VerifPathTraversal", must_reach=("end","present","absent"))]},
-    "bounds": {"quick": "S1: every ASCII path string of 3 bytes x 4 target selectors x matchPath; S3: the real go-ipld-prime traversal over one tree (plain dirs, HAMT dir, 3-block file) x 8 paths (present, absent, redundant slashes, '..') x 3 target selectors x matchPath, symbolic file contents"},
+# ---------------------------------------------------------------- C16
+PROPS["C16"] = {
+    "programs": {
+        "quick": [P("test", "VerifFileWriteFaults", must_reach=("end", "fault-delivered"), w=2, k=1, maxlen=5),
+                  P("test", "VerifDirWriteFaults", must_reach=("end", "fault-delivered", "sharded"), entries=2),
+                  P("test", "VerifQuickBuilder", must_reach=("end",)),
+                  P("test", "VerifRecursiveWriteFaults", must_reach=("end", "fault-delivered"))],
+        "thorough": [P("test", "VerifFileWriteFaults", must_reach=("end", "fault-delivered"), w=2, k=1, maxlen=9),
+                     P("test", "VerifFileWriteFaults", must_reach=("end", "fault-delivered"), w=3, k=1, maxlen=10),
+                     P("test", "VerifDirWriteFaults", must_reach=("end", "fault-delivered", "sharded"), entries=3),
+                     P("test", "VerifDirWriteFaults", must_reach=("end", "fault-delivered", "sharded"), entries=2, maporder=1),
+                     P("test", "VerifQuickBuilder", must_reach=("end",)),
+                     P("test", "VerifRecursiveWriteFaults", must_reach=("end", "fault-delivered"))],
+    },
+    "bounds": {"quick": "file builds 0..5 chunks (width 2), plain dir, sharded dir (2 entries, fanout 8, depth<=2), symlink, one-level recursive import over the model filesystem: no fault / the k-th write-open fails / the k-th commit fails for every k (symbolic): children committed before parents, error and nil link on fault, nothing committed after the fault, returned DAG fully committed; quick builder: commit order",
+               "thorough": "files to 10 chunks at widths 2, 3; 3-entry shards; every map iteration order"},
     "assumptions": [], "outside": "",
 }
 
+# ---------------------------------------------------------------- C17
 PROPS["C17"] = {
-    "programs": {"quick": [P("test", "VerifHamtConcurrentReaders", must_reach=("end","conflicting-accesses-checked")),
+    "programs": {"quick": [P("test", "VerifHamtConcurrentReaders", must_reach=("end", "conflicting-accesses-checked")),
                            P("test", "VerifFileConcurrentReaders")]},
     "native_race_test": ("test", "TestVerifC17Race"),
-    "no_witness_validation": True,
-    "bounds": {"quick": "2 threads; every pair of {lookup first entry, lookup last entry, Length, full iteration} on 3 hand-built HAMT shapes, cold and pre-warmed cache; two readers of one multi-block file node (2..4 chunks); every interleaving of the recorded accesses (symbolic clocks)"},
-    "assumptions": ["each thread's access trace is recorded from its solo execution on the shared node's initial state (cold or warmed); a race is reported when the solver finds a schedule with two conflicting accesses adjacent; below the granularity of recorded cell accesses the Go memory model is not modelled"],
-    "outside": ">= 3 threads; dependency internals (ipld-prime nodes are immutable after decode)",
+    "bounds": {"quick": "2 threads; every pair of {lookup first entry, lookup last entry, Length, full iteration} on 3 hand-built HAMT shapes, cold and pre-warmed cache; two readers of one multi-block file node (2..4 chunks); every interleaving of the recorded accesses to the node's internal cells (8-bit symbolic clocks, mutex and sync.Once semantics as constraints); results equal to the solo results in both orders"},
+    "assumptions": ["each thread's access trace is recorded from its solo execution on the shared node's initial state (cold or warmed) by the engine's shared-cell tracer; a race is a schedule, found by z3, in which two conflicting accesses are adjacent; races are confirmed natively by running the same operations under the Go race detector (a schedule cannot be imposed natively)",
+                    "below the granularity of recorded cell accesses the Go memory model is not modelled"],
+    "outside": ">= 3 threads; interference-dependent control flow beyond the first conflicting access (argued from lock discipline in DESIGN.md, not explored)",
+}
+
+# ---------------------------------------------------------------- C18
+PROPS["C18"] = {
+    "programs": {
+        "quick": [P("test", "VerifRecursiveImport", must_reach=("end", "other-kind"), depth=1, entries=2)],
+        "thorough": [P("test", "VerifRecursiveImport", must_reach=("end", "other-kind"), depth=2, entries=2),
+                     P("test", "VerifRecursiveImport", must_reach=("end", "other-kind"), depth=1, entries=3)],
+    },
+    "bounds": {"quick": "trees of depth<=1 (root + up to 2 entries), each node's kind given by an ARBITRARY 32-bit mode word (the importer's own IsDir/Type/IsRegular tests run symbolically), names 1 byte a..z, file contents 0..2 arbitrary bytes, link targets 1..2 non-NUL bytes; symlinks never opened / listed",
+               "thorough": "depth 2; 3 entries"},
+    "assumptions": ["os.Lstat/ReadDir/Readlink/Open/(*File).Read/Close are replaced by a model filesystem in the symbolic run; native replay materialises the witness tree in a real temp dir (mkfifo for 'other kinds')",
+                    "directories crossing the auto-shard threshold are covered by C02's threshold program, not here"],
+    "outside": "real kernel/filesystem behaviour, path lengths",
+}
+
+# ---------------------------------------------------------------- C19
+PROPS["C19"] = {
+    "programs": {"quick": [P("testutil", "VerifFixtureGenerators", must_reach=("end", "unixfs-directory", "custom-generator"), target=2048, freecoins=5, freenames=1),
+                           P("testutil", "VerifFixtureFile")]},
+    "native_any_label": True,
+    "bounds": {"quick": "UnixFSDirectory (default, sharded bit-width 3, custom child generator), GenerateDirectory (plain/sharded), UnixFSFile sizes 0..3, BuildDirectory; target size 2048; the first 5 dice and the first generated name are explorer-chosen (every value), later draws are scripted (file, largest size, fresh name)"},
+    "assumptions": ["crypto/rand.Int and namegen are replaced by a scripted source (their draws are the symbolic inputs); native replay runs the real generators with a math/rand stream and accepts any failing assertion as confirmation"],
+    "outside": "WrapContent with non-exclusive random siblings; larger target sizes",
+}
+
+# ---------------------------------------------------------------- C20
+PROPS["C20"] = {
+    "programs": {
+        "quick": [P("test", "VerifFileFullReadOrder", must_reach=("end", "preload"), w=2, k=1, maxlen=6),
+                  P("test", "VerifHamtReaderWellFormed", must_reach=("end", "member", "non-member", "iterate")),
+                  P("test", "VerifHamtPreload", must_reach=("end", "missing")),
+                  P("test", "VerifPathTraversal", must_reach=("end", "present", "absent"))],
+        "thorough": [P("test", "VerifFileFullReadOrder", must_reach=("end", "preload"), w=2, k=1, maxlen=12),
+                     P("test", "VerifFileFullReadOrder", must_reach=("end", "preload"), w=3, k=1, maxlen=13),
+                     P("test", "VerifHamtReaderWellFormed", must_reach=("end", "member", "non-member", "iterate")),
+                     P("test", "VerifHamtPreload", must_reach=("end", "missing")),
+                     P("test", "VerifPathTraversal", must_reach=("end", "present", "absent"))],
+    },
+    "bounds": {"quick": "files 0..6 chunks (width 2): first-request order of a full sequential read and of preload == independent depth-first link-order walk, each block once; HAMT iteration / Length / preload request shards in depth-first link order; lookups request path shards root-to-leaf; path traversal requests path blocks root-to-target",
+               "thorough": "files to 12 / 13 chunks at widths 2, 3"},
+    "assumptions": ["the shard cache is a Go map: any dependence of request order on its iteration order would show up under the engine's insertion-order maps only if the code iterated it; the code is also checked with explorer-chosen map orders in C10/C16"],
+    "outside": "",
 }
 
 NOT_APPLICABLE = {}
-NOTES = "All checks are bounded: every result reads 'holds for all values within the bounds recorded in the evidence file; nothing is claimed outside them'. exit 2 = inconclusive (never a pass)."
+NOTES = ("All checks are bounded: every result reads 'holds for all values within the bounds recorded in the evidence file; nothing is claimed outside them'. "
+         "exit 0 = held on everything explored (KNOWN-FINDING lines for listed findings); exit 1 = natively reproduced violation; exit 2 = inconclusive / engine mismatch (never a pass).")
+
+for _p in PROPS.values():
+    _p.setdefault("level_text", LEVEL_TEXT)
+    _p.setdefault("level_note", LEVEL_NOTE)
